@@ -1,4 +1,4 @@
-(* C14/ProofsApi.v — call_onnx_api: what the strip / restore loops do to inputs, initializer order and values. *)
+(* C14/ProofsApi.v — call_onnx_api_before_fix: what the strip / restore_before_fix loops do to inputs, initializer order and values. *)
 From Coq Require Import ZArith List Bool Lia Arith PeanoNat.
 From IRV Require Import Base.Exn Gen.C14Gen C14.Model.
 Import ListNotations.
@@ -115,16 +115,16 @@ Proof.
     + destruct (strip_step_inputs g v) as [e1 H1]. exists (e1 ++ ext). rewrite He, H1, app_assoc. reflexivity.
 Qed.
 
-(* ---------- restore *)
+(* ---------- restore_before_fix *)
 Lemma restore_step_vals g0 g v u :
-  g_vals (restore_step g0 g v) u
+  g_vals (restore_step_before_fix g0 g v) u
   = if Pos.eqb u v
     then {| v_const := v_const (g_vals g0 v); v_shape := v_shape (g_vals g v); v_dtype := v_dtype (g_vals g v) |}
     else g_vals g u.
-Proof. unfold restore_step. simpl. unfold vupd. reflexivity. Qed.
+Proof. unfold restore_step_before_fix. simpl. unfold vupd. reflexivity. Qed.
 
 Lemma restore_fold_vals g0 : forall l g u,
-  g_vals (fold_left (restore_step g0) l g) u
+  g_vals (fold_left (restore_step_before_fix g0) l g) u
   = if pmem u l then {| v_const := v_const (g_vals g0 u); v_shape := v_shape (g_vals g u); v_dtype := v_dtype (g_vals g u) |}
     else g_vals g u.
 Proof.
@@ -135,14 +135,14 @@ Proof.
   - simpl. reflexivity.
 Qed.
 
-Lemma restore_fold_inputs g0 : forall l g, g_inputs (fold_left (restore_step g0) l g) = g_inputs g.
+Lemma restore_fold_inputs g0 : forall l g, g_inputs (fold_left (restore_step_before_fix g0) l g) = g_inputs g.
 Proof. induction l as [|v l IH]; intros g; [reflexivity|]. simpl. rewrite IH. reflexivity. Qed.
 
 Definition add_absent (acc : list positive) (v : positive) : list positive :=
   if pmem v acc then acc else acc ++ [v].
 
 Lemma restore_fold_inits g0 : forall l g,
-  g_inits (fold_left (restore_step g0) l g) = fold_left add_absent l (g_inits g).
+  g_inits (fold_left (restore_step_before_fix g0) l g) = fold_left add_absent l (g_inits g).
 Proof. induction l as [|v l IH]; intros g; [reflexivity|]. simpl. rewrite IH. reflexivity. Qed.
 
 Lemma pmem_app v a b : pmem v (a ++ b) = pmem v a || pmem v b.
@@ -183,8 +183,8 @@ Section ApiProofs.
   Variables (Proto R : Type).
   Variable serialize : gst -> res Proto.
   Variable func : Proto -> res R.
-  Notation call := (call_onnx_api Proto R serialize func).
-  Notation call_fixed := (call_onnx_api_fixed Proto R serialize func).
+  Notation call := (call_onnx_api_before_fix Proto R serialize func).
+  Notation call_fixed := (call_onnx_api Proto R serialize func).
 
   Lemma firstn_app_exact {A} (a b : list A) : firstn (length a) (a ++ b) = a.
   Proof. rewrite firstn_app, Nat.sub_diag, firstn_all. simpl. apply app_nil_r. Qed.
@@ -199,7 +199,7 @@ Section ApiProofs.
     /\ (forall u, g_vals g' u = if pmem u (g_inits g) then fill (g_vals g u) else g_vals g u)
     /\ snd (call g) = func p.
   Proof.
-    intros Hnd Hs. unfold call_onnx_api. rewrite Hs. simpl.
+    intros Hnd Hs. unfold call_onnx_api_before_fix. rewrite Hs. simpl.
     destruct (strip_fold (g_inits g) g Hnd) as [Hv [Hi [ext He]]]. fold (strip g) in Hv, Hi, He.
     split; [|split; [|split]].
     - rewrite restore_fold_inputs, He. apply firstn_app_exact.
@@ -257,11 +257,11 @@ Section ApiProofs.
   Proof.
     intros Hnd.
     destruct (strip_fold (g_inits g) g Hnd) as [Hv [_ [ext He]]]. fold (strip g) in Hv, He.
-    assert (K : let g' := restore_fixed g (strip g) in
+    assert (K : let g' := restore g (strip g) in
                 g_inputs g' = g_inputs g /\ g_inits g' = g_inits g /\ forall u, g_vals g' u = g_vals g u).
-    { unfold restore_fixed. simpl. split; [rewrite He; apply firstn_app_exact|]. split; [reflexivity|].
+    { unfold restore. simpl. split; [rewrite He; apply firstn_app_exact|]. split; [reflexivity|].
       intros u. destruct (pmem u (g_inits g)) eqn:M; [reflexivity|]. rewrite Hv, M. reflexivity. }
-    unfold call_onnx_api_fixed. destruct (serialize (strip g)); exact K.
+    unfold call_onnx_api. destruct (serialize (strip g)); exact K.
   Qed.
 End ApiProofs.
 
@@ -284,7 +284,7 @@ Definition w_serfail : gst :=
   {| g_inputs := [10%positive]; g_inits := [1; 2]%positive;
      g_vals := mk_vals [(1%positive, typed (big_t 100)); (2%positive, typed (lazy_bad_t 101))] |}.
 
-Definition run_ok (g : gst) := call_onnx_api unit unit lazy_serialize (fun _ => Ok tt) g.
+Definition run_ok (g : gst) := call_onnx_api_before_fix unit unit lazy_serialize (fun _ => Ok tt) g.
 
 Lemma api_order_witness :
   NoDup (g_inits w_order) /\ is_ok (snd (run_ok w_order)) = true
